@@ -188,7 +188,7 @@ pub fn check_acct(c: &AcctCase, st: &mut Stats) -> Result<(), Fail> {
     let frames = acct_frames(c);
     let workers = 1 + (c.workers % 8) as usize;
     let queue = [0usize, 1, 2, 8, 1024][(c.queue_sel % 5) as usize];
-    let cfg = PoolCfg { workers, queue, batch: 1 + (c.batch % 64) as usize, timeout_ms: 1 + (c.timeout_ms % 10) as u64, dispatchers: 1 + (c.dispatchers % 4) as usize, perturb: Some(c.perturb), max_sleep_us: 300 };
+    let cfg = PoolCfg { workers, queue, batch: 1 + (c.batch % 64) as usize, timeout_ms: 1 + (c.timeout_ms % 10) as u64, dispatchers: 1 + (c.dispatchers % 4) as usize, perturb: Some(c.perturb), max_sleep_us: 300, max_conn: 1000 };
     let run = run_pool(kind, &frames, &cfg, None, None).map_err(|e| fail!("pool:new", "{e}"))?;
     if let Some(p) = &run.worker_panic {
         return Err(Fail::new(format!("{:?}:worker-{}", kind, crate::engine::panic_key(p)), format!("a worker thread panicked: {p}")));
